@@ -161,6 +161,8 @@ enum Payload {
     U8U8,
     U8U16,
     NoneU8,
+    /// first table wider than the second
+    U16U8,
 }
 
 fn subsets(n: usize, k: usize) -> Vec<Vec<usize>> {
@@ -186,18 +188,20 @@ fn join_loop_job(n: usize, m: usize, kt: KeyTy, pl: Payload, dom_size: usize) ->
         Payload::U8U8 => (Some(Ty::u8()), Ty::u8()),
         Payload::U8U16 => (Some(Ty::u8()), Ty::Int(IntTy::U16)),
         Payload::NoneU8 => (None, Ty::u8()),
+        Payload::U16U8 => (Some(Ty::Int(IntTy::U16)), Ty::u8()),
     };
+    let pa_int = if pa == Some(Ty::Int(IntTy::U16)) { IntTy::U16 } else { IntTy::U8 };
     let ea = Ty::Tup(match &pa {
         Some(p) => vec![k.clone(), p.clone()],
         None => vec![k.clone()],
     });
     let eb = Ty::Tup(vec![k.clone(), pb.clone()]);
     let c = n.min(m);
-    let out_elem = Ty::Tup(vec![k.clone(), Ty::u8(), pb.clone()]);
+    let out_elem = Ty::Tup(vec![k.clone(), Ty::Int(pa_int), pb.clone()]);
     let pb_int = if pb == Ty::u8() { IntTy::U8 } else { IntTy::U16 };
     let xa1 = if pa.is_some() { tupf(var("x"), 1) } else { lit_u8(7) };
     let body = vec![
-        let_mut("out", ex(ExprKind::ArrRep(Box::new(tup(vec![key_zero(kt), lit_u8(0), lit(0, pb_int)])), c))),
+        let_mut("out", ex(ExprKind::ArrRep(Box::new(tup(vec![key_zero(kt), lit(0, pa_int), lit(0, pb_int)])), c))),
         let_mut("cnt", lit_usize(0)),
         let_mut("acc", lit(0, pb_int)),
         st(StmtKind::ForJoin(
@@ -229,7 +233,7 @@ fn join_loop_job(n: usize, m: usize, kt: KeyTy, pl: Payload, dom_size: usize) ->
                         .map(|(i, ki)| {
                             let mut f = vec![dom[*ki].clone()];
                             if pa.is_some() {
-                                f.push(Val::u8(1 + i as u8));
+                                f.push(Val::Int(if pa_int == IntTy::U16 { 0x0101 } else { 1 } + i as i128, pa_int));
                             }
                             Val::Tup(f)
                         })
@@ -278,18 +282,19 @@ struct BuiltinCnt {
     with_dups: AtomicU64,
 }
 
-fn check_builtin(n: usize, m: usize, assoc: bool, wide: bool, cnt: &BuiltinCnt, coll: &Collector) {
+fn check_builtin(n: usize, m: usize, assoc: bool, wide: bool, a_wider: bool, cnt: &BuiltinCnt, coll: &Collector) {
     let kdom: Vec<u64> = if wide { vec![0, 1, 256, 65535] } else { vec![0, 1, 2, 255] };
     let kty = if wide { IntTy::U16 } else { IntTy::U8 };
     let kname = kty.name();
-    let (ta, tb) = if assoc { (format!("({kname}, u8)"), format!("({kname}, u16)")) } else { (kname.to_string(), kname.to_string()) };
+    let (pa_ty, pb_ty) = if a_wider { (IntTy::U16, IntTy::U8) } else { (IntTy::U8, IntTy::U16) };
+    let (ta, tb) = if assoc { (format!("({kname}, {})", pa_ty.name()), format!("({kname}, {})", pb_ty.name())) } else { (kname.to_string(), kname.to_string()) };
     let elem = if assoc { format!("(bool, {ta}, {tb})") } else { format!("(bool, {kname})") };
     let src = format!("pub fn main(a: [{ta}; {n}], b: [{tb}; {m}]) -> [{elem}; const {{ {n}usize + {m}usize - 1usize }}] {{\n  join(a, b)\n}}\n");
-    let site = format!("J/builtin/{}/{}/n{}m{}", kname, if assoc { "assoc" } else { "set" }, n, m);
+    let site = format!("J/builtin/{}/{}/n{}m{}", kname, if !assoc { "set" } else if a_wider { "assoc-a-wider" } else { "assoc" }, n, m);
     cnt.programs.fetch_add(1, Ordering::Relaxed);
     let defs = Defs::default();
     let kbits = kty.bits() as usize;
-    let (ea_bits, eb_bits) = if assoc { (kbits + 8, kbits + 16) } else { (kbits, kbits) };
+    let (ea_bits, eb_bits) = if assoc { (kbits + pa_ty.bits() as usize, kbits + pb_ty.bits() as usize) } else { (kbits, kbits) };
     let out_elem_bits = 1 + if assoc { ea_bits + eb_bits } else { kbits };
     for cfg in [Config { register: false, dedup: true }, Config { register: true, dedup: false }] {
         let cp = match subject::compile(&src, cfg, HashMap::new()) {
@@ -313,7 +318,7 @@ fn check_builtin(n: usize, m: usize, assoc: bool, wide: bool, cnt: &BuiltinCnt, 
                     .map(|(i, k)| {
                         let key = Val::Int(kdom[*k] as i128, kty);
                         if assoc {
-                            Val::Tup(vec![key, Val::u8(1 + i as u8)])
+                            Val::Tup(vec![key, Val::Int(if a_wider { 0x0101 } else { 1 } + i as i128, pa_ty)])
                         } else {
                             key
                         }
@@ -325,7 +330,7 @@ fn check_builtin(n: usize, m: usize, assoc: bool, wide: bool, cnt: &BuiltinCnt, 
                     .map(|(j, k)| {
                         let key = Val::Int(kdom[*k] as i128, kty);
                         if assoc {
-                            Val::Tup(vec![key, Val::Int(1000 + j as i128, IntTy::U16)])
+                            Val::Tup(vec![key, Val::Int(if a_wider { 100 } else { 1000 } + j as i128, pb_ty)])
                         } else {
                             key
                         }
@@ -444,7 +449,7 @@ pub fn run(tier: Tier) -> i32 {
     for n in 1..=max_nm {
         for m in 1..=max_nm {
             for kt in [KeyTy::U8, KeyTy::U16, KeyTy::Pair] {
-                for pl in [Payload::U8U8, Payload::U8U16, Payload::NoneU8] {
+                for pl in [Payload::U8U8, Payload::U8U16, Payload::NoneU8, Payload::U16U8] {
                     if tier == Tier::Quick && kt != KeyTy::U8 && pl != Payload::U8U8 && n + m > 4 {
                         continue;
                     }
@@ -474,17 +479,19 @@ pub fn run(tier: Tier) -> i32 {
     for n in 1..=max_b {
         for m in 1..=max_b {
             for assoc in [false, true] {
-                bjobs.push((n, m, assoc, false));
+                bjobs.push((n, m, assoc, false, false));
             }
+            bjobs.push((n, m, true, false, true));
             if tier == Tier::Thorough || (n <= 2 && m <= 3) {
-                bjobs.push((n, m, false, true));
-                bjobs.push((n, m, true, true));
+                bjobs.push((n, m, false, true, false));
+                bjobs.push((n, m, true, true, false));
+                bjobs.push((n, m, true, true, true));
             }
         }
     }
     let done_c = par_range(bjobs.len(), &budget, |i| {
-        let (n, m, assoc, wide) = bjobs[i];
-        check_builtin(n, m, assoc, wide, &bc, &coll);
+        let (n, m, assoc, wide, a_wider) = bjobs[i];
+        check_builtin(n, m, assoc, wide, a_wider, &bc, &coll);
     });
     let complete = done_a == net_jobs.len() && fr.complete && done_c == bjobs.len() && !budget.hit();
     let report = Report {
